@@ -18,7 +18,7 @@ RULE = (
     "quotient; metamorphic: mag(a*b)=mag(b*a), mag((a*b)/b)=mag(a), a op b computed twice on the same operand "
     "objects gives the model amount both times, every tree with a unit conversion evaluates identically on the "
     "long-lived database of the shard and on a freshly built one, and a battery of products matching one of its unit "
-    "pairs in both directions with exponents +-2, +-3 agrees with the model on the long-lived database, a**n == n-fold product (n up to 3 inside the trees, up to 8 on single Scalars). Also a*b, b*a, a/b, b/a, a*a, a/a, (a*b)/b with a created directly on a derived quantity that writes one quantity type in two units under two categories (m.km, m3/ft3; Scalar, list, ndarray), each computed twice; products and quotients of two Arrays in different container kinds (list, tuple, float64 / int64 / float32 ndarray). One shard runs the trees on the simple length/time filler (units given by formula strings). Non-trivial = some "
+    "pairs in both directions with exponents +-2, +-3 agrees with the model on the long-lived database, a**n == n-fold product (n up to 3 inside the trees, up to 8 on single Scalars). Also a*b, b*a, a/b, b/a, a*a, a/a, (a*b)/b with a created directly on a derived quantity that writes one quantity type in two units under two categories (m.km, m3/ft3; Scalar, list, ndarray), each computed twice; products and quotients of two Arrays in different container kinds (list, tuple, float64 / int64 / float32 ndarray). One shard runs the trees on the simple length/time filler (units given by formula strings). A squared Array operand is used in two products and a quotient: same values afterwards, same product both times. Non-trivial = some "
     "operand is converted (shared type, different units) with exponent != 1, or >= 3 leaves; distinct key = tree."
 )
 ASSUMPTIONS = ["UnitModel slopes come from single-unit float conversions (validated by C01)", "**0 and negative powers are outside the statement"]
@@ -374,6 +374,25 @@ class Checker:
             if v2 != v0 or repr(r2.GetQuantity()) != repr(q):
                 ctx.fail("product_not_repeatable:mixed_unit_operand", case, "%s computed twice on the same operands gives %r and then %r" % (what, r, r2))
 
+    def check_operand_reuse_arrays(self, a, b, case):
+        """a squared Array operand (its unit has to be matched under an exponent) is used in two products and a
+        quotient: it holds the same values afterwards and the second product equals the first"""
+        ctx = self.ctx
+        b2 = b * b
+        before = [float(t) for t in b2.GetValues()]
+        r1 = a * b2
+        v1 = [float(t) for t in r1.GetValues()]
+        mid = [float(t) for t in b2.GetValues()]
+        r2 = a * b2
+        q1 = a / b2
+        ctx.ev()
+        after = [float(t) for t in b2.GetValues()]
+        if before != mid or before != after:
+            ctx.fail("operand_changed_by_product", case, "b*b = %r held %r before it was multiplied with %r and holds %r afterwards" % (b2, before, a, after))
+        if [float(t) for t in r2.GetValues()] != v1 or repr(r2.GetQuantity()) != repr(r1.GetQuantity()):
+            ctx.fail("product_not_repeatable:arrays", case, "%r * %r gives %r and then %r" % (a, b2, r1, r2))
+        ctx.cls("array_operand_reused")
+
     def check_high_powers(self, case):
         """a**n for n up to 8 is the n-fold product (the trees stop at n = 3)"""
         from barril.units import Scalar
@@ -410,6 +429,8 @@ class Checker:
         a = Array(gen.as_container(ka, va), ua, ca)
         b = Array(gen.as_container(kb, vb), ub, cb)
         ctx.cls("operands_in_different_containers" if ka != kb else "operands_in_one_container_kind")
+        if "int" not in ka + kb:
+            self.check_operand_reuse_arrays(a, b, case)
         ctx.nontrivial(("containers", ua, ub, ka, kb), case)
         da, dbb = {um.qt[ua]: 1}, {um.qt[ub]: 1}
         for what, fn, md, mag in (
